@@ -14,9 +14,9 @@ CONSTANTS
   MaxZombie = 0
   MaxSnap = 1
   MaxForeign = 1
-  Keeps = {100}
+  Keeps = {10240}
   Eager = TRUE
-INVARIANTS TypeOK C18_ControllerDispatches C18_IdleMeansPublished C18_IdContent C18_NoSkip C18_FirstOrder C18_LPSound I_DispAboveLP NoPanic
+INVARIANTS TypeOK C18_ControllerDispatches C18_IdleMeansPublished C18_IdContent C18_NoSkip C18_FirstOrder C18_LPSound I_DispAboveLP C18_Obtainable NoPanic
 PROPERTIES StepsOK
 VIEW MCView
 CHECK_DEADLOCK FALSE
